@@ -5,8 +5,12 @@
 //! vh replay <file.json>                   replay a recorded violation
 //! vh selftest                             engine self tests on toy programs
 mod common;
+mod explore;
 mod json;
 mod plan;
+mod rt;
+mod sc_holder;
+mod toy;
 mod wmodel;
 mod writer;
 
@@ -67,11 +71,21 @@ fn run_spec(spec: &Spec) -> common::Report {
             spec.usize("Fh", 0),
             spec.opt_usize("first"),
         ),
+        "holder" => sc_holder::run(spec),
+        "holderseq" => sc_holder::run_seq(spec),
         other => {
             let mut r = common::Report::new(&spec.raw);
             r.errors.push(format!("unknown engine {:?}", other));
             r
         }
+    }
+}
+
+/// The scenario a sched spec denotes (for replay).
+fn scenario_of(spec: &Spec) -> Option<Box<dyn explore::Scenario>> {
+    match spec.engine.as_str() {
+        "holder" => Some(Box::new(sc_holder::scenario(&spec.str("prog", "S1.G")))),
+        _ => None,
     }
 }
 
@@ -88,7 +102,7 @@ fn main() {
         }
         "run" => {
             // silence the default panic message: engines catch and record panics themselves
-            std::panic::set_hook(Box::new(|_| {}));
+            rt::install();
             for s in &args[2..] {
                 let spec = Spec::parse(s);
                 let t = std::time::Instant::now();
@@ -99,13 +113,33 @@ fn main() {
                 println!("{}", j.render());
             }
         }
+        "selftest" => {
+            rt::install();
+            if !toy::selftest() {
+                std::process::exit(1);
+            }
+        }
         "replay" => {
+            rt::install();
             let path = args.get(2).expect("replay file");
             let text = std::fs::read_to_string(path).expect("cannot read replay file");
             let doc = Json::parse(&text).expect("replay file is not JSON");
             let body = doc.get("replay").cloned().unwrap_or(doc.clone());
             let (bad, text) = match body.str_at("engine").as_str() {
                 "writer" => writer::replay(&body),
+                "sched" => {
+                    let spec = Spec::parse(&body.str_at("spec"));
+                    let choices = body.usizes_at("choices");
+                    let sigs: Vec<u64> = body
+                        .get("signatures")
+                        .and_then(|a| a.as_arr())
+                        .map(|a| a.iter().filter_map(|x| x.as_str().and_then(|s| u64::from_str_radix(s, 16).ok())).collect())
+                        .unwrap_or_default();
+                    match scenario_of(&spec) {
+                        Some(scn) => explore::replay(&*scn, choices, sigs),
+                        None => (false, format!("no scenario for spec {:?}", spec.raw)),
+                    }
+                }
                 other => (false, format!("unknown engine {:?} in replay file", other)),
             };
             print!("{}", text);
